@@ -9,6 +9,7 @@ import (
 	"os"
 	"regexp/syntax"
 	"sort"
+	"strconv"
 	"strings"
 
 	"golang.org/x/tools/go/ssa"
@@ -95,10 +96,10 @@ func c10(r *core.Report) {
 			callers: []string{"(*routers/gorillamux.Router).FindRoute"},
 		},
 	})
-	crashAssert(r, cs)
-	crashIndex(r, cs)
-	crashLib(r, cs)
-	crashRec(r, cs)
+	crashAssert(r, cs, nil)
+	crashIndex(r, cs, 10)
+	crashLib(r, cs, 3)
+	crashRec(r, cs, nil)
 	crashNil(r, cs)
 }
 
@@ -107,6 +108,16 @@ func c10(r *core.Report) {
 type panicExcuse struct {
 	reason  string
 	callers []string
+	// verify re-establishes the structural facts the reason rests on; a non-empty result is why it
+	// no longer holds (the panic is then reported)
+	verify func() string
+}
+
+// assertExcuse: an unchecked assertion whose operand type is fixed by facts outside the function's
+// own type tests; verify re-establishes those facts on every run.
+type assertExcuse struct {
+	reason string
+	verify func() string
 }
 
 func crashPanic(r *core.Report, cs *crashScope, table map[string]panicExcuse) {
@@ -125,6 +136,14 @@ func crashPanic(r *core.Report, cs *crashScope, table map[string]panicExcuse) {
 					name := shortFn(fn)
 					perFn[name]++
 					key := fmt.Sprintf("panic:%s#%d", name, perFn[name])
+					if ex, ok := table[name]; ok && ex.verify != nil {
+						if bad := ex.verify(); bad != "" {
+							r.Bad(key, p.Pos(pn.Pos()), "explicit panic whose exclusion argument no longer holds: "+bad)
+						} else {
+							r.OK(key, p.Pos(pn.Pos()), ex.reason)
+						}
+						continue
+					}
 					if ex, ok := table[name]; ok {
 						// the excuse holds only for the listed callers
 						var other []string
@@ -204,7 +223,7 @@ func entryPathTo(p *core.Prog, cs *crashScope, target *ssa.Function) string {
 
 // ---------------------------------------------------------------- type assertions
 
-func crashAssert(r *core.Report, cs *crashScope) {
+func crashAssert(r *core.Report, cs *crashScope, table map[string]assertExcuse) {
 	p := r.Prog
 	r.RunRule(cs.id+".assert", "every single-result type assertion to a concrete type in reachable code is dominated by a successful type test of the same value (comma-ok assertion or type switch on the same operand), or its operand is the error result of a strconv.Parse* call (documented to be *strconv.NumError)", 1, func() {
 		perFn := map[string]int{}
@@ -229,6 +248,12 @@ func crashAssert(r *core.Report, cs *crashScope) {
 					key := fmt.Sprintf("assert:%s#%d(%s)", name, perFn[name], types.TypeString(ta.AssertedType, func(*types.Package) string { return "" }))
 					if why := assertDischarged(ta); why != "" {
 						r.OK(key, p.Pos(ta.Pos()), why)
+					} else if ex, ok := table[name]; ok {
+						if bad := ex.verify(); bad != "" {
+							r.Bad(key, p.Pos(ta.Pos()), "unchecked type assertion whose justification no longer holds: "+bad)
+						} else {
+							r.OK(key, p.Pos(ta.Pos()), ex.reason)
+						}
 					} else {
 						r.Bad(key, p.Pos(ta.Pos()), "unchecked type assertion `x.("+ta.AssertedType.String()+")` on a value whose dynamic type is not established on this path: panics when the value has another type")
 					}
@@ -373,9 +398,9 @@ func strConst(info *types.Info, e ast.Expr) (string, bool) {
 	return core.ConstStr(info, e)
 }
 
-func crashIndex(r *core.Report, cs *crashScope) {
+func crashIndex(r *core.Report, cs *crashScope, floor int) {
 	p := r.Prog
-	r.RunRule(cs.id+".idx", "every index or slice expression with a constant index k (x[k], x[k:]) on a slice or string in reachable code is guarded by a length fact implying len(x) > k (resp. >= k) on the same access path: an `if`/`switch`/loop condition or short-circuit operand on len(x) or x != \"\", a counter kept in lock-step with appends, or a library fact (strconv.Format* is non-empty; FindAllStringSubmatch of a constant pattern yields 1+groups entries)", 10, func() {
+	r.RunRule(cs.id+".idx", "every index or slice expression with a constant index k (x[k], x[k:]) on a slice or string in reachable code is guarded by a length fact implying len(x) > k (resp. >= k) on the same access path: an `if`/`switch`/loop condition or short-circuit operand on len(x) or x != \"\", a counter kept in lock-step with appends, or a library fact (strconv.Format* is non-empty; strings.Split with a non-empty separator yields at least one element; FindAllStringSubmatch of a constant pattern yields 1+groups entries); a variable captured by a closure keeps the facts that hold where the closure is created when nothing assigns it afterwards", floor, func() {
 		na := 0
 		perFn := map[string]int{}
 		done := map[ast.Node]bool{}
@@ -449,6 +474,17 @@ func crashIndex(r *core.Report, cs *crashScope) {
 				if path != "" {
 					have = lenAtLeast(info, atoms, path, base)
 				}
+				// a variable captured by the closure: the facts that hold where the closure is created
+				if fl, isLit := syn.(*ast.FuncLit); isLit && have < need && path != "" {
+					if id := core.RootIdent(base); id != nil {
+						if o := info.ObjectOf(id); o != nil && (o.Pos() < fl.Pos() || o.Pos() > fl.End()) && !assignedAfter(info, fd.Body, o, fl.Pos()) {
+							outer := core.Atoms(core.GuardsAt(info, fd.Body, fl))
+							if h := lenAtLeast(info, outer, path, base); h > have {
+								have = h
+							}
+						}
+					}
+				}
 				why := ""
 				if have >= need {
 					why = fmt.Sprintf("guards imply len >= %d", have)
@@ -469,13 +505,74 @@ func crashIndex(r *core.Report, cs *crashScope) {
 	})
 }
 
+// assignedAfter: some statement of body positioned after pos assigns o (or takes its address).
+func assignedAfter(info *types.Info, body ast.Node, o types.Object, pos token.Pos) bool {
+	found := false
+	is := func(e ast.Expr) bool {
+		id, ok := ast.Unparen(e).(*ast.Ident)
+		return ok && info.ObjectOf(id) == o
+	}
+	ast.Inspect(body, func(n ast.Node) bool {
+		if n == nil || found {
+			return false
+		}
+		if n.End() < pos {
+			return false
+		}
+		switch x := n.(type) {
+		case *ast.AssignStmt:
+			if x.Pos() > pos {
+				for _, l := range x.Lhs {
+					if is(l) {
+						found = true
+					}
+				}
+			}
+		case *ast.IncDecStmt:
+			if x.Pos() > pos && is(x.X) {
+				found = true
+			}
+		case *ast.RangeStmt:
+			if x.Pos() > pos && ((x.Key != nil && is(x.Key)) || (x.Value != nil && is(x.Value))) {
+				found = true
+			}
+		case *ast.UnaryExpr:
+			if x.Pos() > pos && x.Op == token.AND && is(x.X) {
+				found = true
+			}
+		}
+		return true
+	})
+	return found
+}
+
 // libLenFact: library facts about the length of the base expression.
 func libLenFact(info *types.Info, ff *core.FuncFacts, base ast.Expr, need int) string {
+	splitFact := func(e ast.Expr) string {
+		c, ok := ast.Unparen(e).(*ast.CallExpr)
+		if !ok || len(c.Args) != 2 || need > 1 {
+			return ""
+		}
+		callee := core.CalleeOf(info, c)
+		if callee == nil || callee.Pkg() == nil || callee.Pkg().Path() != "strings" || callee.Name() != "Split" {
+			return ""
+		}
+		if sep, ok := core.ConstStr(info, c.Args[1]); ok && sep != "" {
+			return "strings.Split with the non-empty separator " + strconv.Quote(sep) + " returns at least one element"
+		}
+		return ""
+	}
+	if w := splitFact(base); w != "" {
+		return w
+	}
 	id, ok := ast.Unparen(base).(*ast.Ident)
 	if !ok {
 		return ""
 	}
 	if rhs := ff.ReachingAssign(info.ObjectOf(id), base); rhs != nil {
+		if w := splitFact(rhs); w != "" {
+			return w
+		}
 		if c, ok := ast.Unparen(rhs).(*ast.CallExpr); ok {
 			if callee := core.CalleeOf(info, c); callee != nil && callee.Pkg() != nil && callee.Pkg().Path() == "strconv" && (strings.HasPrefix(callee.Name(), "Format") || callee.Name() == "Itoa" || callee.Name() == "Quote") && need <= 1 {
 				return "strconv." + callee.Name() + " never returns an empty string"
@@ -640,9 +737,9 @@ func lockstepCounter(info *types.Info, ff *core.FuncFacts, fd *ast.FuncDecl, bas
 
 // ---------------------------------------------------------------- library calls that panic
 
-func crashLib(r *core.Report, cs *crashScope) {
+func crashLib(r *core.Report, cs *crashScope, floor int) {
 	p := r.Prog
-	r.RunRule(cs.id+".lib", "calls of standard-library functions that panic on bad arguments: regexp.MustCompile only on constants or on text passed through regexp.QuoteMeta; big.NewFloat (panics on NaN) only on values that cannot be NaN — a quotient needs a divisor guarded against zero, a traffic-derived float needs a dominating NaN test; reflect.Value accessors only under the matching Kind test", 3, func() {
+	r.RunRule(cs.id+".lib", "calls of standard-library functions that panic on bad arguments: regexp.MustCompile only on constants or on text passed through regexp.QuoteMeta; big.NewFloat (panics on NaN) only on values that cannot be NaN — a quotient needs a divisor guarded against zero, a traffic-derived float needs a dominating NaN test; reflect.Value accessors only under the matching Kind test", floor, func() {
 		perFn := map[string]int{}
 		for _, fn := range cs.funcs {
 			for _, b := range fn.Blocks {
